@@ -219,6 +219,8 @@ def run(repo, rep):
     if u65_expr is None:
         raise AnalysisError("is_ethos_u65_system definition not found")
     widths = {f: w for f, w, o in bitfields(repo, "config_r")}
+    macs_assert = any(isinstance(st, ast.Assert) and norm(st.test) == "self.num_macs_per_cycle == accel_config.macs"
+                      for st in ast.walk(af.func("ArchitectureFeatures.__init__")))
 
     def log2(interp, args, kwargs, node):
         if isinstance(args[0], (int, float)):
@@ -242,6 +244,8 @@ def run(repo, rep):
         def mk3():
             arch = AObj("arch", {"ncores": cores, "config": AObj("config", {"macs": macs}),
                                  "shram_size_bytes": banks * bank_size, "is_ethos_u65_system": is65})
+            if macs_assert:
+                arch.fields["num_macs_per_cycle"] = macs  # per-core count, by the assert in ArchitectureFeatures.__init__
             return [arch], {}
 
         for p in it2.run("build_config_word", mk3):
